@@ -41,6 +41,11 @@ fn gen_ast(rng: &mut Rng) -> Vec<Node> {
                 v.push(Node::Lit(s));
             }
             4 => v.push(Node::BraceWs(match rng.below(6) { 0 => '\t', 1 => '\n', _ => ' ' })),
+            // one `{wide_msg}` anywhere in the template (first, middle or last line): its expansion goes
+            // through a scratch buffer shared with the other placeholders
+            9 if !v.iter().any(|n| matches!(n, Node::Ph { key: "wide_msg", .. })) && rng.chance(1, 2) => {
+                v.push(Node::Ph { key: "wide_msg", colon: false, align: None, width: None, trunc: false, style: None, alt: None })
+            }
             5 if v.len() < 12 && rng.chance(1, 2) => v.push(Node::NL),
             _ => {
                 let colon = rng.chance(3, 4);
@@ -159,6 +164,7 @@ fn reference(ast: &[Node], msg: &str, prefix: &str, pos: u64, len: u64) -> Vec<V
             }
             Node::Ph { key, align, width, trunc, .. } => {
                 let val = match *key {
+                    "wide_msg" => "\u{0}".to_string(),
                     "msg" => msg.to_string(),
                     "prefix" => prefix.to_string(),
                     "pos" => pos.to_string(),
@@ -184,8 +190,25 @@ fn reference(ast: &[Node], msg: &str, prefix: &str, pos: u64, len: u64) -> Vec<V
     if lines.last().map(|l| l.iter().all(|x| x.is_empty())).unwrap_or(false) {
         lines.pop();
     }
+    // the wide element takes what the rest of its line leaves of the terminal; at the very end of a
+    // line its padding is dropped
+    for alts in lines.iter_mut() {
+        for a in alts.iter_mut() {
+            if let Some(at) = a.find('\u{0}') {
+                let rest = crate::vscreen::cols_of(&a.replace('\u{0}', ""));
+                let left = TERM_WIDTH.saturating_sub(rest);
+                let mut field: String = msg.chars().take(left).chain(std::iter::repeat(' ')).take(left).collect();
+                if at + 1 == a.len() {
+                    field.truncate(field.trim_end().len());
+                }
+                *a = a.replace('\u{0}', &field);
+            }
+        }
+    }
     lines
 }
+
+const TERM_WIDTH: usize = 200;
 
 fn max_width(ast: &[Node]) -> u128 {
     ast.iter()
@@ -301,7 +324,7 @@ fn run_case(seed: u64, idx: u64) -> CaseOut {
     let pos = rng.range(0, 5000);
     let len = rng.range(0, 5000);
     let (m, p) = (msg.clone(), prefix.clone());
-    let r = render_with(200, Some(len), style, move |pb| {
+    let r = render_with(TERM_WIDTH as u16, Some(len), style, move |pb| {
         pb.set_message(m);
         pb.set_prefix(p);
         pb.set_position(pos);
